@@ -219,15 +219,16 @@ TEXT_ALTERING_OK = {
 
 
 def text_not_altered(prog, chk):
-    """the text pipeline (src/text.rs) applies no character-dropping / character-altering string operation to the author's
-    text beyond the reviewed ones"""
+    """the text pipeline (src/text.rs, and the carriers that hand element content to it: Container::generate_events,
+    InputEvent::text_string / cdata_string, unescaped_text) applies no character-dropping / character-altering string
+    operation to the author's text beyond the reviewed ones"""
     import collections
     from props.C01 import strip_closures
 
     seen = collections.Counter()
     n = 0
     for b in prog.bodies.values():
-        if not b.path.startswith("svgdx::text::"):
+        if not (b.path.startswith("svgdx::text::") or b.path.startswith("<svgdx::transform::Container as svgdx::transform::EventGen>::generate_events") or b.path.startswith("svgdx::events::InputEvent::text_string") or b.path.startswith("svgdx::events::InputEvent::cdata_string") or b.path.startswith("svgdx::events::unescaped_text")):
             continue
         chk.touch(b)
         for (bb, t, c) in b.call_sites(lambda c: c.path.split("::")[-1] in TEXT_ALTERING and ("str" in c.path.lower() or "string" in c.path.lower())):
